@@ -140,24 +140,35 @@ def _get_input_data(ctx: Ctx, c: Collector) -> None:
     loc = fi.loc
     fld = ("attr", sim, "inputs_from_set_data")
     pers = ("attr", sim, "persistent_inputs")
-    # (a) take-and-clear
-    takes = [e for e in s.of_kind("bind") if e.term[2] == fld]
+    # (a) take-and-clear: the step inputs are derived from the buffer (the buffer itself, a copy, one
+    # side of a tuple swap) and the buffer is then replaced by a fresh empty dict, with no call in between
+    EMPTY = (("dict", ()), call(T.glob("dict")))
+    takes = [e for e in s.events if e.kind in ("bind", "call") and T.contains((e.term[2],), fld)
+             and not (e.kind == "call" and e.term[1] == ("attr", fld, "clear"))]
     clears = [e for e in s.of_kind("store") if e.term[1] == fld]
     pr = []
     if not takes:
         pr.append("inputs from set_data are not taken into the step inputs")
-    if not clears or clears[0].term[2] != ("dict", ()):
+    if any(e.kind == "call" and e.term[1] == ("attr", fld, "clear") for e in s.events):
+        pr.append("inputs_from_set_data.clear() empties the dict object that was just handed to the simulator (or to the merge): set_data values are lost")
+    if not clears or clears[0].term[2] not in EMPTY:
         pr.append("inputs_from_set_data is not reset to a fresh dict: the same set_data values are delivered again at the next step")
     if takes and clears:
-        between = [e for e in s.events if takes[0].idx < e.idx < clears[0].idx and e.kind in ("call", "await")]
-        if clears[0].idx < takes[0].idx:
+        first = takes[0]
+        between = [e for e in s.events if first.idx < e.idx < clears[0].idx and e.kind in ("call", "await") and not T.contains((e.term,), fld) and e.stmt is not first.stmt]
+        if clears[0].idx < first.idx and clears[0].stmt is not first.stmt:
             pr.append("inputs_from_set_data is cleared before it is read: set_data values are lost")
-        elif between:
-            pr.append("calls between reading and resetting inputs_from_set_data")
-        if clears[0].guards != takes[0].guards:
+        elif any(e.kind == "await" for e in between):
+            pr.append("an await between reading and resetting inputs_from_set_data: a set_data call arriving in between is dropped by the reset")
+        if [g for g in clears[0].guards if g not in first.guards]:
             pr.append("the reset is conditional")
     c.add("take", GID, "set_data inputs: take and clear", VIOLATED if pr else DISCHARGED, "; ".join(pr), loc)
-    inp = takes[0].term[1] if takes else T.var("input_data")
+    inp = takes[0].term[1] if takes and takes[0].kind == "bind" else T.var("input_data")
+    # a single-definition local is substituted by its value downstream: both spellings denote the step inputs
+    aliases = {T.strip(takes[0].term[2]): inp} if takes and takes[0].kind == "bind" and T.strip(takes[0].term[2])[0] not in ("var", "attr") else {}
+
+    def canon(t):
+        return T.replace(T.strip(t), aliases) if aliases else t
     # who else touches the field
     for f2 in ctx.prog.all_functions():
         if f2.qualname in (GID, "mosaik.simmanager.SimRunner.__init__", "mosaik.simmanager.MosaikRemote.set_data"):
@@ -168,7 +179,7 @@ def _get_input_data(ctx: Ctx, c: Collector) -> None:
                 break
 
     merges = [e for e in s.of_kind("call") if e.term[1][0] == "glob" and e.term[1][1] in (MERGE_ALL, MERGE_EX) and not T.contains([x.term for x in s.of_kind("call") if x.idx > e.idx and x.term[1][0] == "glob" and x.term[1][1] in (MERGE_ALL, MERGE_EX)], e.term)]
-    decoded = [(e, _merge_levels(e.term)) for e in merges]
+    decoded = [(e, _merge_levels(canon(e.term))) for e in merges]
     into = [(e, d) for e, d in decoded if d is not None and d[1] == inp]
     back = [(e, d) for e, d in decoded if d is not None and d[1] == pers]
     # (b) memory -> inputs
@@ -216,7 +227,7 @@ def _get_input_data(ctx: Ctx, c: Collector) -> None:
         pr.append("buffered (pushed) inputs are never delivered")
     else:
         g0 = gi[0]
-        if g0.term[2] != (inp, cur_t):
+        if canon(g0.term[2]) != (inp, cur_t):
             pr.append(f"the buffer is queried with {T.show(g0.term[2])[:80]} instead of (inputs, current step time)")
         if into and g0.idx < into[0][0].idx:
             pr.append("buffered inputs are merged before the memory is read")
@@ -256,7 +267,7 @@ def _get_input_data(ctx: Ctx, c: Collector) -> None:
                             pr.append("the pulled value is not cache[src_eid][src_attr]")
                         elif e.term[2][0] == "phi" and e.term[2][3] != T.NONE and e.term[2][2] != T.NONE:
                             pr.append("when the source did not produce the attribute, the value is not None: the value of the previous data-flow (another source) is delivered")
-                        tgt_full = unalias(e.term[1][1], s, fi)
+                        tgt_full = canon(unalias(e.term[1][1], s, fi))
                         if not (T.contains(tgt_full, de) and T.contains(tgt_full, da) and T.contains(tgt_full, inp)):
                             pr.append("the pulled value is not stored under inputs[dest_eid][dest_attr]")
                     else:
@@ -265,7 +276,7 @@ def _get_input_data(ctx: Ctx, c: Collector) -> None:
                     pr.append("pulled values are never stored in the inputs")
     c.add("pull", GID, "pulled inputs: floor lookup at step time - shift, filed under the source's full id", VIOLATED if pr else DISCHARGED, "; ".join(pr), loc)
     rets = s.returns
-    c.check(bool(rets) and rets[-1].term == inp and len(rets) == 1, "take", GID, "returns the assembled inputs", "does not return the assembled step inputs", loc)
+    c.check(bool(rets) and canon(rets[-1].term) == inp and len(rets) == 1, "take", GID, "returns the assembled inputs", "does not return the assembled step inputs", loc)
 
 
 # --------------------------------------------------------------------------- timed input buffer
